@@ -82,7 +82,8 @@ class DynamicFields:
     def try_get(self):
       return self.try_get(fieldname)
     def setter(self, value):
-      self._set_existing_field(fieldname, value)
+      # (the tag may have been removed since the accessor was defined)
+      self.set(fieldname, value)
     super().__setattr__(fieldname, DynamicField(getter, setter))
     super().__setattr__("try_get_" + fieldname, MethodType(try_get, self))
 
